@@ -34,6 +34,8 @@ def fn_operand_name(fd, op):
 
 
 def rules(ctx):
+    from .C03 import location_names_are_total
+    location_names_are_total(ctx, "R5")  # a request whose answer uses the overflow depot is answered, not dropped
     o, fd = ctx.require_fn("R1.route-table", "T7", MAIN, "GET /health -> healthy and POST /solve -> solve are registered")
     if fd is not None:
         routes = calls_to(fd, ROUTE)
